@@ -128,6 +128,10 @@ var registry = map[string]propDef{
 	"C13":  {"other", props.C13},
 	"C13p": {"other", props.C13parse},
 	"C13s": {"other", props.C13sizes},
+	"C13h": {"other", props.C13shared},
+	"C13b": {"other", props.C13scan},
+	"C13o": {"other", props.C13offsets},
+	"C13f": {"other", props.C13fresh},
 	"C17":  {"other", props.C17},
 	"C17p": {"other", props.C17pool},
 	"C17h": {"other", props.C17handle},
